@@ -271,15 +271,19 @@ theorem adv_subStopping (hne : s.rt ≠ .exited) (i : Nat) (hi : i < s.nSubs) (h
     have h2 := mRoots_upd_sub s.st i (.stopping (s.werr (.sub i)) (some (s.now + grace cfg s (.sub i))))
     simp only [mu]; omega
 
+theorem mRoots_upd_eq (st : Task → TS) (r : Root) (x : TS) (h : rootPot x = rootPot (st (.root r))) :
+    mRoots (upd st (.root r) x) = mRoots st := by
+  cases r <;> simp [mRoots, upd] at h ⊢ <;> omega
+
 theorem adv_subEnd (hne : s.rt ≠ .exited) (i : Nat) (hi : i < s.nSubs) (f : Bool) (dl : Option Nat)
     (hst : s.st (.sub i) = .stopping f dl) (hw : noLiveWorkerOf s (.sub i) = true)
     (hp : s.kind i = .pinger → s.withdrawn i = true) : Advance cfg s := by
+  have hlt := mSubs_upd_lt s.nSubs i hi s.st s.kind s.withdrawn (failTS f)
+    (by rw [hst]; cases f <;> simp [rootPot, failTS])
+  have h2 := mRoots_upd_sub s.st i (failTS f)
   have hmu : ∀ (c : Task → Bool) (oe : Bool),
       mu cfg { s with st := upd s.st (.sub i) (failTS f), creq := c, orchErr := oe } < mu cfg s := by
     intro c oe
-    have := mSubs_upd_lt s.nSubs i hi s.st s.kind s.withdrawn (failTS f)
-      (by rw [hst]; cases f <;> simp [rootPot, failTS])
-    have h2 := mRoots_upd_sub s.st i (failTS f)
     simp only [mu]; omega
   by_cases he : cfg.fixed = true ∧ f = true ∧ s.gone i = false ∧ s.st (.root .orchestrator) = .running
   · apply Advance.mk (.subEnd i (failTS f))
@@ -287,8 +291,28 @@ theorem adv_subEnd (hne : s.rt ≠ .exited) (i : Nat) (hi : i < s.nSubs) (f : Bo
       rfl (by intro n h; cases h)
     · simp [step, hne, hi, hst, hw, he]; exact hp
     · exact hmu _ _
-  · apply Advance.mk (.subEnd i (failTS f)) { s with st := upd s.st (.sub i) (failTS f) } rfl (by intro n h; cases h)
-    · simp [step, hne, hi, hst, hw, he]; exact hp
-    · exact hmu s.creq s.orchErr
+  · by_cases hc : (∃ f' dl', s.st (.root .orchestrator) = .stopping f' dl')
+        ∧ cfg.fixed = true ∧ f = true ∧ s.gone i = false
+    · obtain ⟨⟨f', dl', ho⟩, hc2⟩ := hc
+      apply Advance.mk (.subEnd i (failTS f))
+        { s with st := upd (upd s.st (.sub i) (failTS f)) (.root .orchestrator) (.stopping true none), orchErr := true }
+        rfl (by intro n h; cases h)
+      · simp [step, hne, hi, hst, hw, he, ho, hc2]; exact hp
+      · have h3 := mRoots_upd_eq (upd s.st (.sub i) (failTS f)) .orchestrator (.stopping true none)
+          (by simp [upd, ho, rootPot])
+        have h4 := mSubs_upd_root s.nSubs (upd s.st (.sub i) (failTS f)) s.kind s.withdrawn .orchestrator
+          (.stopping true none)
+        simp only [mu]; omega
+    · apply Advance.mk (.subEnd i (failTS f)) { s with st := upd s.st (.sub i) (failTS f) } rfl
+        (by intro n h; cases h)
+      · cases ho : s.st (.root .orchestrator) with
+        | stopping f' dl' =>
+          have : ¬ (cfg.fixed = true ∧ f = true ∧ s.gone i = false) := fun h => hc ⟨⟨f', dl', ho⟩, h⟩
+          simp [step, hne, hi, hst, hw, he, ho, this]; exact hp
+        | running =>
+          have : ¬ (cfg.fixed = true ∧ f = true ∧ s.gone i = false) := fun h => he ⟨h.1, h.2.1, h.2.2, ho⟩
+          simp [step, hne, hi, hst, hw, ho, this]; exact hp
+        | _ => simp [step, hne, hi, hst, hw, ho]; exact hp
+      · exact hmu s.creq s.orchErr
 
 end Kopf.C20
